@@ -247,6 +247,22 @@ fn run_stream(build: Build, stream: &[(usize, &Op)]) -> Vec<(usize, Outcome)> {
     out
 }
 
+fn run_stream_ticketed(build: Build, stream: &[(usize, &Op)], before: &mut dyn FnMut(usize)) -> Vec<(usize, Outcome)> {
+    let mut n = new_node(build);
+    let mut out = Vec::with_capacity(stream.len());
+    for (i, op) in stream {
+        match op {
+            Op::Line(l) => {
+                before(*i);
+                out.push((*i, n.parse(&l.bytes, l.decode, l.conv_result)));
+            }
+            Op::Restart { .. } => n.restart(),
+            _ => {}
+        }
+    }
+    out
+}
+
 /// Independence under real concurrency: every node's stream is run on its own OS thread, all at
 /// the same time (barrier start), and each thread's log must equal the log of the same stream
 /// run alone. Natively the kernel schedules the threads (repeated rounds; confirmation only);
@@ -274,16 +290,23 @@ fn judge_threads(sc: &Scenario, build: Build, st: &mut Option<&mut Stats>) -> Op
     let stop = AtomicBool::new(false);
     let diverged: std::sync::Mutex<Option<(usize, usize, Outcome, Outcome, usize)>> = std::sync::Mutex::new(None);
     let rounds_done = std::sync::atomic::AtomicUsize::new(0);
+    // observed interleaving: a ticket is drawn before every parse call (Relaxed: it must not add
+    // happens-before edges between the threads, or Miri's race detector would be blinded)
+    let ticket = std::sync::atomic::AtomicUsize::new(0);
+    let orders: std::sync::Mutex<Vec<(usize, usize, u8)>> = std::sync::Mutex::new(Vec::new());
     std::thread::scope(|scope| {
         for node in 0..nodes {
-            let (streams, solo, barrier, stop, diverged, rounds_done) = (&streams, &solo, &barrier, &stop, &diverged, &rounds_done);
+            let (streams, solo, barrier, stop, diverged, rounds_done, ticket, orders) = (&streams, &solo, &barrier, &stop, &diverged, &rounds_done, &ticket, &orders);
             scope.spawn(move || {
+                let mut mine: Vec<(usize, usize, u8)> = Vec::new();
                 for round in 0..rounds {
                     // two barriers per round: `stop` is written only between the first and the
                     // second and read only between the second and the next first, so that all
                     // threads take the same decision and nobody waits alone
                     barrier.wait();
-                    let log = run_stream(build, &streams[node]);
+                    let log = run_stream_ticketed(build, &streams[node], &mut |_i| {
+                        mine.push((round, ticket.fetch_add(1, Ordering::Relaxed), node as u8));
+                    });
                     if node == 0 {
                         rounds_done.fetch_add(1, Ordering::Relaxed);
                     }
@@ -299,12 +322,33 @@ fn judge_threads(sc: &Scenario, build: Build, st: &mut Option<&mut Stats>) -> Op
                         break;
                     }
                 }
+                orders.lock().unwrap().extend(mine);
             });
         }
     });
     if let Some(st) = st.as_deref_mut() {
         st.judged += 1;
         st.probe("concurrent scenario judged (one OS thread per parser)");
+        // one hash per round: the sequence of thread ids in ticket order
+        let mut o = orders.into_inner().unwrap();
+        o.sort_unstable();
+        let mut cur_round = usize::MAX;
+        let mut h = crate::rng::Fnv::default();
+        let mut any = false;
+        for (round, _t, node) in o {
+            if round != cur_round {
+                if any {
+                    st.interleavings.insert(h.0);
+                }
+                h = crate::rng::Fnv::default();
+                cur_round = round;
+            }
+            h.write(&[node]);
+            any = true;
+        }
+        if any {
+            st.interleavings.insert(h.0);
+        }
         *st.dyn_probes.entry("concurrent rounds executed".to_string()).or_insert(0) += rounds_done.load(Ordering::Relaxed) as u64;
     }
     let d = diverged.into_inner().unwrap();
